@@ -185,6 +185,10 @@ def check_threshold(acc, mname, ri, sensor, idx, op, thr, base_vals_in_thr_unit,
         import numpy
         thr_arg = [numpy.float64(thr[0]), thr[1]]
         tag = tag + '/numpy-threshold'
+        if sensor == 'encoder' and thr[0] >= 0:
+            # ... and, for an encoder, handed over as an Angle (a sub-kind of AngularPosition)
+            thr_arg = [numpy.float64(thr[0]), thr[1], 'Angle']
+            tag = tag + '+Angle'
     ops, pre = schedule(mname, ri, [sensor, idx, op, thr_arg])
     m, info = sim.run_schedule(spec, ops)
     acc.executions += 1
